@@ -354,7 +354,28 @@ func thoroughSets(c *chain) (t1, t2, t3 []*scenario) {
 	for _, p := range perms3 {
 		t1 = append(t1, baseline(p, 2), baseline(p, 3))
 	}
-	return
+	// round-robin over the kinds, so that a time cap cuts every kind equally
+	return interleave(t1), interleave(t2), interleave(t3)
+}
+
+func interleave(scs []*scenario) []*scenario {
+	byKind := map[string][]*scenario{}
+	var kinds []string
+	for _, s := range scs {
+		if _, ok := byKind[s.Kind]; !ok {
+			kinds = append(kinds, s.Kind)
+		}
+		byKind[s.Kind] = append(byKind[s.Kind], s)
+	}
+	var out []*scenario
+	for i := 0; len(out) < len(scs); i++ {
+		for _, k := range kinds {
+			if i < len(byKind[k]) {
+				out = append(out, byKind[k][i])
+			}
+		}
+	}
+	return out
 }
 
 // ------------------------------------------------------------------ main
@@ -651,7 +672,8 @@ func main() {
 		// the scenarios that depend on hitting a window of a few hundred milliseconds run first, with few workers
 		race, rest := splitRace(all[:len(t1)+len(t3)])
 		rest = append(rest, all[len(t1)+len(t3):]...)
-		completed = ck.runAll(race, 8, deadline) + ck.runAll(rest, 56, deadline)
+		completed = ck.runAll(race, 8, time.Now().Add(2*time.Minute))
+		completed += ck.runAll(rest, 56, deadline)
 		if completed < total {
 			exhaustive = false
 			capNote = fmt.Sprintf("time budget of %v reached after %d of %d scenarios (order: every (kind,height,range,after) once with a rotating arrival order and 2 peers [%d], the same with 3 peers [%d], then the remaining five arrival orders [%d])", budget, completed, total, len(t1), len(t3), len(t2))
@@ -661,8 +683,11 @@ func main() {
 	if len(ck.inconcl) > 0 {
 		exhaustive = false
 	}
-	if ck.kindsSeen.Len() < len(allKinds()) {
-		core.Fatal("only %d of %d tamper kinds were exercised", ck.kindsSeen.Len(), len(allKinds()))
+	if ck.kindsSeen.Len() < len(allKinds())+1 {
+		if exhaustive || run.Quick() {
+			core.Fatal("only %d of %d tamper kinds were exercised", ck.kindsSeen.Len()-1, len(allKinds()))
+		}
+		run.Notes = append(run.Notes, fmt.Sprintf("only %d of %d tamper kinds were exercised before the time budget ran out", ck.kindsSeen.Len()-1, len(allKinds())))
 	}
 	sort.Slice(ck.walls, func(i, j int) bool { return ck.walls[i] < ck.walls[j] })
 	var medWall, maxWall int64
